@@ -257,7 +257,13 @@ class FnTotality:
                     else:
                         # length through a parameter slice?
                         lsym = self.lenop_sym(lenop, bi)
-                        if idx is not None and idx[1] != INF and lsym is not None:
+                        po = self._param_plus_const(ev, idxop)
+                        if lsym is not None and po is not None:
+                            # `buf[off + k]` with `off` a by-value parameter: each caller owes len(buf) >= off + k + 1
+                            s.status = "req"
+                            s.req = (lsym[0], "minp", (po[0], int(po[1] + 1 - lsym[1])))
+                            s.why = "requires len(%s) >= %s + %d" % (self.pname(lsym[0]), self.pname(po[0]), po[1] + 1 - lsym[1])
+                        elif idx is not None and idx[1] != INF and lsym is not None:
                             s.status = "req"
                             s.req = (lsym[0], "min", int(idx[1] + 1 - lsym[1]))
                             s.why = "requires len(%s) >= %d" % (self.pname(lsym[0]), idx[1] + 1 - lsym[1])
@@ -470,6 +476,16 @@ class FnTotality:
         s.why = "range end: requires len(%s) >= %s + %d" % (self.pname(base.sym[0]), self.pname(atom[1]), lf[1])
         return True
 
+    def _param_plus_const(self, ev, op):
+        """(param, c) when the operand is `never-assigned unsigned by-value parameter + c` (c >= 0)"""
+        lf = ev.linform(ev.expr_key(op, []))
+        if lf is None or len(lf[0]) != 1 or lf[1] < 0:
+            return None
+        (atom, coeff), = lf[0].items()
+        if coeff != 1 or not self._paramish(atom) or atom[0] != "l":
+            return None
+        return atom[1], int(lf[1])
+
     def _paramish(self, atom):
         """atom of a linear form that a caller can re-express: a never-assigned unsigned by-value parameter, or the
         length of a parameter slice"""
@@ -574,6 +590,19 @@ class FnTotality:
             else:
                 L = self.slice_lenval(prod[2][0], d[0])
                 self.need_eq(s, L, n, "try_from(..).unwrap()")
+            self.sites.append(s)
+            return
+        if prod is not None and not prod[1]["l"] and re.search(r"TryFrom<(usize|u64|u32|u16|u128|i64|i32|isize)>.*try_from$", prod[1]["f"]) and prod[2]:
+            # integer narrowing `u8::try_from(x).unwrap()`: cannot fail when x provably fits the target type
+            td = self.f.ty(b.local_ty(t[3][0])) if len(t[3]) == 1 else None
+            iv = self.ev.at_block(d[0]).op_ival(prod[2][0], d[0])
+            s = Site(self.fn, bi, "unwrap", dwo("unwrap:int try_from"), t[5], t[6], callee=prod[1])
+            if td is not None and td.get("k") in ("uint", "int") and iv is not None:
+                lo_t = 0 if td["k"] == "uint" else -(1 << (td["bits"] - 1))
+                hi_t = (1 << td["bits"]) - 1 if td["k"] == "uint" else (1 << (td["bits"] - 1)) - 1
+                if iv[0] >= lo_t and iv[1] <= hi_t:
+                    s.status = "discharged"
+                    s.why = "value in [%s, %s] fits %s" % (iv[0], iv[1], td.get("s"))
             self.sites.append(s)
             return
         pname = prod[1]["f"].split("::")[-1] if prod is not None else "value"
@@ -1034,9 +1063,22 @@ def run_totality(facts, run, prop):
         mod_allowed_all[k_.split("|")[0]] = mod_allowed_all.get(k_.split("|")[0], 0) + v_
     for k_, v_ in mod_have.items():
         mod_have_all[k_.split("|")[0]] = mod_have_all.get(k_.split("|")[0], 0) + v_
+    present = set(gen_name(x["name"]) for x in facts.fns.values())
     for (fid, key), cnt in sorted(bulk_counts.items(), key=lambda kv: kv[0][1]):
         allowed = inv.get(key, 0)
         a = T.fa[fid]
+        if cnt > allowed:
+            # the function was moved (into a private sub-module, another impl block): the reviewed entry of a function
+            # with the same name and kind in the same top-level module, which no longer exists under its old path
+            fnname, kind = key.split("|")
+            last = fnname.split("::")[-1]
+            top = "::".join(fnname.split("::")[:2])
+            for k_, v_ in inv.items():
+                kf, kk = k_.split("|")
+                if kk == kind and kf != fnname and kf.split("::")[-1] == last and kf.startswith(top + "::") and kf not in present and v_ >= cnt:
+                    allowed = v_
+                    moved.append("%s: reviewed as %s (moved)" % (key, kf))
+                    break
         if cnt > allowed and mod_have.get(modkey(key), 0) <= mod_allowed.get(modkey(key), 0):
             # redistribution inside the module, total not increased
             moved.append("%s: %d site(s) redistributed within %s" % (key, cnt, modkey(key)))
